@@ -17,6 +17,10 @@ import (
 // relative round-off error in big.Float precision numbers
 var dpSafeEpsilon = 1e-15
 
+// exactPrec is a mantissa size in bits that holds the difference of any two finite float64
+// values (at most 2098 bits) and the product of two such differences exactly.
+const exactPrec = 4300
+
 // OrientationIndex returns the index of the direction of point relative
 // to a vector specified by vectorOrigin-vectorEnd
 //
@@ -36,6 +40,13 @@ func OrientationIndex(vectorOrigin, vectorEnd, point geom.Coord) orientation.Typ
 	}
 
 	var dx1, dy1, dx2, dy2 big.Float
+
+	// A zero big.Float takes the precision of the first value it is set to (53 bits for a
+	// float64), which would round every later operation. Give the temporaries enough precision
+	// to hold differences of float64 values and products of such differences exactly.
+	for _, f := range []*big.Float{&dx1, &dy1, &dx2, &dy2} {
+		f.SetPrec(exactPrec)
+	}
 
 	// normalize coordinates
 	dx1.SetFloat64(vectorEnd[0]).Add(&dx1, big.NewFloat(-vectorOrigin[0]))
